@@ -182,6 +182,15 @@ def render(atoms: List[Atom], package: str) -> str:
 # A multi-file, multi-package program: several files per package (enums only / messages /
 # services), a package without messages, a descendant package referring upwards, >1 service,
 # >3 methods, optional message from an ancestor package.
+# pairs of atoms that declare the same field names in Host and cannot be combined in one schema
+INCOMPATIBLE = {frozenset(("field_builtins", "field_builtin_then_repeated"))}
+
+
+def compatible_pairs(names):
+    import itertools
+    return [(a, b) for a, b in itertools.combinations(names, 2) if frozenset((a, b)) not in INCOMPATIBLE]
+
+
 MULTI_FILES = {
     "p/enums.proto": 'syntax = "proto3";\npackage p;\n// enums only\nenum E1 { E1_ZERO = 0; E1_ONE = 1; }\nenum E2 { E2_ZERO = 0; E2_NEG = -1; }\n',
     "p/msgs.proto": ('syntax = "proto3";\npackage p;\nimport "p/enums.proto";\nimport "p/other.proto";\nimport "q/only_enum.proto";\n'
